@@ -81,6 +81,7 @@ class FnSpec:
     self.defaults = {}
     self.loop_modifies = {}
     self.str_sort = None
+    self.yields = None       # element sort of the ghost output trace `_out` of a generator
 
   @property
   def file(self):
@@ -111,4 +112,15 @@ def lemma(name, params, requires=(), ensures=(), body=None, **kw):
   s.module_globals = sys._getframe(1).f_globals
   s.body_src = body
   LEMMAS[name] = s
+  return s
+
+
+def custom(target, check, props=(), notes='', replay=None):
+  """A syntactic / structural obligation generator over the real source:
+  check() -> [(kind, ok: bool, detail: str)]. replay() -> (still_fails: bool, observed: str)
+  demonstrates a failed obligation on the real code (e.g. a forced schedule)."""
+  s = FnSpec(target, params=[], kind='custom', props=props, notes=notes)
+  s.check = check
+  s.replay = replay
+  REGISTRY[target] = s
   return s
